@@ -356,6 +356,20 @@ def namelen(ctx: Any) -> List[Ob]:
                 else:
                     why = f'check `{norm(t.ast)}` allows names longer than 253 or does not raise a decode exception'
         obs.append(ob(R, rn, f'return {rv}', 'a name longer than 253 characters is rejected before it is returned (on every returning path)', good, why))
+    # the per-packet name cache is a memo of `offset -> labels`: in the function that fills it on a miss, the key stored under
+    # is the key that was looked up (else a later pointer to another offset with that key is handed the wrong labels)
+    dl = prog.func(INC + '._decode_labels_at_offset')
+    dme = dl.params[0]
+    gets = [c for c in walk_local_ordered(dl.node) if isinstance(c, ast.Call) and call_name(c) == 'get' and isinstance(c.func, ast.Attribute) and self_attr(c.func.value, dme) == '_name_cache' and c.args]
+    sts = [st for st in walk_local_ordered(dl.node) if isinstance(st, ast.Assign) and isinstance(st.targets[0], ast.Subscript) and self_attr(st.targets[0].value, dme) == '_name_cache']
+    if not gets or not sts:
+        raise AnalysisError('anchor vanished: lookup / fill of the name cache in _decode_labels_at_offset')
+    from .common import xnorm as _xn
+
+    keys_get = {_xn(dl, c.args[0]) for c in gets}
+    for st in sts:
+        k = _xn(dl, st.targets[0].slice)
+        obs.append(ob(R, dl, st, 'a name decoded on a cache miss is stored under the offset it was looked up with', k in keys_get, f'stored under `{norm(st.targets[0].slice)}` but looked up with {sorted(keys_get)}'))
     return obs
 
 
